@@ -39,6 +39,8 @@ const IMMEDIATE: &[&str] = &[
     "TRACE", "NOTRACE", "STATS", "INPUT Q", "INPUT Q$", "STOP", "END", "GOSUB 10", "GOTO 10", "DEF FNQ(X) = X",
     "IF 1 THEN PRINT 2 ELSE PRINT 3", "PRINT 1/0", "Y = \"s\"", "DIM Z(3,3)", "PRINT E(11)", "T$(3) = \"x\"", "LET W = W + 1",
     "FOR I = 1 TO 2 : PRINT I : NEXT I", "?", ":", "REM hi", "DATA 1,2",
+    // string values that spell the numerals the reply scripts use (what a string variable held must not colour how a reply is read)
+    "A$ = \"7\" : B$ = \"5\"", "N$ = \"1\" : A$ = \"2\"", "B$ = \"0\" : N$ = \"3\"", "T$(1) = \"12\" : T$(2) = \"5\"", "A$ = \"-3\" : B$ = \"4.5\"",
     // arrays with the names and cell counts the generated programs use, but another shape
     "DIM M(1,2)", "DIM M(2,1) : M(2,1) = 4", "DIM P(19)", "DIM P(4,3)", "DIM Q(35)", "DIM Q(3,2,2)", "DIM E(0,10)", "DIM E(10,0) : E(3,0) = 1",
     "DIM G(120)", "DIM G(0,0,120)", "DIM R$(0,6)", "R$(6) = \"left\"", "DIM H(1)", "G(10,10) = 3", "PRINT U; V$; W(1)",
